@@ -13,7 +13,7 @@ import time
 import traceback
 
 VERIF = os.path.dirname(os.path.dirname(os.path.abspath(__file__)))
-EVID = os.path.join(VERIF, 'evidence')
+EVID = os.environ.get('VERIF_EVIDENCE_DIR') or os.path.join(VERIF, 'evidence')
 REPLAYS = os.path.join(VERIF, 'replays')
 KNOWN = os.path.join(VERIF, 'known_findings.json')
 
@@ -35,6 +35,8 @@ def _run_group(args):
         instr.install()
         mod = importlib.import_module(modname)
         fn = dict(mod.groups(tier))[gname]
+        from vsym import ob as _ob
+        _ob.start_budget(getattr(mod, 'GROUP_BUDGET', {'quick': 240, 'thorough': 1800})[tier])
         res = fn(tier, seed)
         return {'group': gname, 'results': res, 'seconds': time.time() - t0,
                 'sources': instr.source_report(), 'error': None}
